@@ -32,6 +32,7 @@ fn gen_stream(stream: &str, n: u64, seed: u64) {
             writeln!(w, "cmp {} {}", show_in(&a), show_in(&b)).unwrap(); },
         "num" => for _ in 0..n { writeln!(w, "{}", numrun::gen_num_line(&mut r)).unwrap(); },
         "evaltable" => { let d = gen::table_env().show(); for i in 0..gen::table_len() { writeln!(w, "eval {} {}", d, show_expr(&gen::table_case(i).unwrap())).unwrap(); } }
+        "evalcs" => for _ in 0..n { let d = gen::gen_env(&mut r); let depth = 1 + r.below(3) as u32; let e = gen::gen_tree(&mut r, depth, false); writeln!(w, "evalcs {} {}", d.show(), show_expr(&e)).unwrap(); },
         "eval" | "evalill" => for _ in 0..n { let d = gen::gen_env(&mut r); let depth = 1 + r.below(4) as u32;
             let mut e = gen::gen_tree(&mut r, depth, stream == "evalill"); if r.chance(1, 3) { gen::add_repeats(&mut r, &mut e); } writeln!(w, "eval {} {}", d.show(), show_expr(&e)).unwrap(); },
         "scanfrag" => { // exhaustive fragment sequences up to length n (n = 3 or 4), then nothing random
@@ -64,6 +65,11 @@ fn gen_stream(stream: &str, n: u64, seed: u64) {
             writeln!(w, "rt {} {}", r.below(6), show_expr(&e)).unwrap(); prev = Some(e); } },
         "opt" | "optill" => for _ in 0..n { let d = gen::gen_env(&mut r); let depth = 1 + r.below(4) as u32;
             let mut e = tree::gen_opt_tree(&mut r, depth, stream == "optill"); if r.chance(1, 3) { gen::add_repeats(&mut r, &mut e); } writeln!(w, "opt {} {}", d.show(), show_expr(&e)).unwrap(); },
+        // `vchain:<stream>`: n chains of 4090…10010 levels (round numbers where a depth guard would sit are covered from both sides)
+        st if st.starts_with("vchain:") => { let kind = &st[7..]; for i in 0..n {
+            let depth = match r.below(5) { 0 => 4090 + r.below(20), 1 => 8185 + r.below(20), 2 => 10000 + r.below(10), 3 => 5000 + r.below(3000), _ => 4097 } as u32;
+            let e = gen::gen_vchain_tree(&mut r, depth, i); let d = gen::table_env();
+            match kind { "json" => writeln!(w, "json {}", show_expr(&e)).unwrap(), kk => writeln!(w, "{} {} {}", kk, d.show(), show_expr(&e)).unwrap() } } }
         // `wide:<stream>`: ONE list of thousands of small elements per case (n cases): recovered failures per element, or constant elements
         st if st.starts_with("wide:") => { let kind = &st[5..]; for i in 0..n {
             let k = i % 8; let len = match (k, r.below(5)) { (6, 0) => 33334, (6, _) => 34000 + r.usize(8000), (7, _) => 2000 + r.usize(3000), (_, 0) => 4090 + r.usize(20), (_, 1) => 10001 + r.usize(300), (_, 2) => 4200 + r.usize(1000), (_, 3) => 12000, _ => 6000 + r.usize(3000) };
